@@ -112,6 +112,10 @@ def run(res, replay=None):
                 if abs(corr - 1) > 1e-6:
                     res.violation('at r = 0 with all lineages linked the two trees do not coincide (corr != 1)',
                                   {'spec': it['spec'], 'corr': corr, 'cov': cov})
+    # configuration objects shared between Coalescents of different sample size (n_unlinked larger than the sample = all unlinked)
+    import orc
+    orc.run_oracle(res, 'shared_configs', [{'r': rng.choice([0.5, 1.0]), 'n_unlinked': 9, 'sample_sizes': [2, 3]},
+                                           {'r': 1.0, 'n_unlinked': 1, 'sample_sizes': [3, 2]}][: (1 if res.tier == 'quick' else 2)], chunk=1)
     # covariance decays as r grows (one configuration, increasing r)
     base = gen.rand_spec(random.Random(res.seed + 1), n_total=2, n_demes=1, n_epochs=1, loci=2, end_time='never')
     rs = [0.0, 1.0, 16.0, 256.0, 4096.0]
